@@ -105,11 +105,13 @@ mod wire {
         #[prost(message, optional, tag = "1")]
         pub target: Option<WireTarget>,
     }
-    /// answers with the candidate at index `pick` (none if out of range) and records what it was sent
+    /// answers with the candidate at index `pick` (none if out of range) and records what it was sent; with `alter` the answer keeps
+    /// the identifier of that candidate but carries another port and an extra metadata entry (the service's word counts)
     #[derive(Clone, Default)]
     pub struct MockStrategy {
         pub seen: Arc<Mutex<Vec<SelectRequest>>>,
         pub pick: usize,
+        pub alter: bool,
     }
     impl tonic::server::NamedService for MockStrategy {
         const NAME: &'static str = "scrayosnet.passage.adapter.Strategy";
@@ -121,9 +123,16 @@ mod wire {
         fn call(&mut self, request: tonic::Request<SelectRequest>) -> Self::Future {
             let seen = Arc::clone(&self.0.seen);
             let pick = self.0.pick;
+            let alter = self.0.alter;
             Box::pin(async move {
                 let request = request.into_inner();
-                let target = request.targets.get(pick).cloned();
+                let mut target = request.targets.get(pick).cloned();
+                if alter {
+                    if let Some(t) = target.as_mut() {
+                        if let Some(a) = t.address.as_mut() { a.port = (a.port + 1) % 65536; }
+                        t.meta.push(MetaEntry { key: "assigned-by".into(), value: "service".into() });
+                    }
+                }
                 seen.lock().unwrap().push(request);
                 Ok(tonic::Response::new(SelectResponse { target }))
             })
@@ -149,8 +158,8 @@ mod wire {
             })
         }
     }
-    pub async fn start(pick: usize) -> Option<(MockStrategy, String)> {
-        let mock = MockStrategy { seen: Default::default(), pick };
+    pub async fn start(pick: usize, alter: bool) -> Option<(MockStrategy, String)> {
+        let mock = MockStrategy { seen: Default::default(), pick, alter };
         let incoming = tonic::transport::server::TcpIncoming::bind("127.0.0.1:0".parse().unwrap()).ok()?;
         let addr = incoming.local_addr().ok()?;
         let svc = mock.clone();
@@ -184,9 +193,10 @@ pub fn request_wire(_seed: u64) -> usize {
             let port = [25565u16, 0, 65535][(hi + ci) % 3];
             let protocol = [769i32, 0, i32::MAX][(hi + 2 * ci) % 3];
             let pick = (hi + ci) % (candidates.len() + 1);
+            let alter = (hi + ci) % 2 == 1;
             cases += 1;
             let outcome: Result<(), String> = rt.block_on(async {
-                let (mock, url) = wire::start(pick).await.ok_or("mock service did not start")?;
+                let (mock, url) = wire::start(pick, alter).await.ok_or("mock service did not start")?;
                 let adapter = GrpcStrategyAdapter::new(url).await.map_err(|e| e.to_string())?;
                 let client_addr: SocketAddr = client.parse().unwrap();
                 let user_id = uuid::Uuid::parse_str(id).unwrap();
@@ -212,7 +222,16 @@ pub fn request_wire(_seed: u64) -> usize {
                         return Err(format!("candidate {:?} arrives as {:?} / {:?} / {:?}", t.identifier, w.identifier, addr(&w.address), meta));
                     }
                 }
-                match (picked, candidates.get(pick)) {
+                // what the service answered (the candidate, or its altered version)
+                let answered: Option<Target> = candidates.get(pick).map(|t| {
+                    let mut t = t.clone();
+                    if alter {
+                        t.address.set_port(((t.address.port() as u32 + 1) % 65536) as u16);
+                        t.meta.insert("assigned-by".into(), "service".into());
+                    }
+                    t
+                });
+                match (picked, answered.as_ref()) {
                     (None, None) => Ok(()),
                     (Some(p), Some(t)) if p.identifier == t.identifier && p.address == t.address && p.meta == t.meta => Ok(()),
                     (p, t) => Err(format!("the service picked {:?}, select returned {:?}", t.map(|t| &t.identifier), p.map(|p| p.identifier))),
